@@ -147,6 +147,32 @@ Proof.
   exists e, vs3, n3. auto.
 Qed.
 
+
+(* change of the exit pc by silent steps that keep the state *)
+Lemma G_exit : forall pc1 pc2 st fk (O K : nat -> Prop) ce n0 (T : state -> Prop),
+  (forall w f vs n, steps (N pc1 (SV w :: st) f vs n) (N pc2 (SV w :: st) f vs n)) ->
+  forall ws s,
+  G {| g_pc := pc1; g_st := st; g_base := fk; g_own := O; g_keep := K; g_ce := ce; g_n0 := n0 |} ws T s ->
+  G {| g_pc := pc2; g_st := st; g_base := fk; g_own := O; g_keep := K; g_ce := ce; g_n0 := n0 |} ws T s.
+Proof.
+  intros pc1 pc2 st fk O K ce n0 T Hs. induction ws; simpl; intros s HG; auto.
+  destruct HG as (fk' & vs3 & n3 & St & Ch & Le & R). exists fk', vs3, n3.
+  split; [eapply steps_trans; [exact St|apply Hs]|]. split; [auto|]. split; [auto|].
+  intros vs2 n2 Kp L2. destruct (R vs2 n2 Kp L2) as [R1 R2]. split; auto.
+Qed.
+
+(* weakening: larger own set, same keep set, smaller n0 *)
+Lemma G_sub : forall cb c (T T' : state -> Prop),
+  g_pc cb = g_pc c -> g_st cb = g_st c -> g_base cb = g_base c ->
+  (forall i, g_own cb i -> g_own c i) -> (forall a b, keepS c a b -> keepS cb a b) -> g_n0 c <= g_n0 cb ->
+  (forall s, T s -> T' s) ->
+  forall ws s, G cb ws T s -> G c ws T' s.
+Proof.
+  intros cb c T T' H1 H2 H3 H4 H5 H6 H7 ws s HG.
+  refine (G_ctx nt code rpc cb c [] (fun _ _ => True) T T' H1 H2 H3 H4 H5 H6 _ _ _ _ ws s I HG); auto.
+  intros x vs n _ _. exists vs, n. split; [constructor|]. split; [apply chg_refl|lia].
+Qed.
+
 Lemma seq_nil_r : forall r, seq r ([], None) = r.
 Proof. intros [ws [x|]]; simpl; auto. rewrite app_nil_r. auto. Qed.
 
